@@ -53,6 +53,9 @@ type c20Shared struct {
 	g        graph.Graph
 	sel      selector.Selector
 	specNode datamodel.Node
+	sel2     selector.Selector
+	visits2  int
+	matches2 int
 	cfg      *traversal.Config
 	visits   int
 	matches  int
@@ -198,6 +201,22 @@ func c20Setup() (*c20Shared, error) {
 				s.matches++
 			}
 		}
+		// a second shared selector with every clause kind: a depth-limited recursion whose edge sits inside a
+		// union (not as its last member) directly under explore-all, beside fields, index, range and subset matchers
+		rich := refsel.Rec(3, refsel.All(refsel.Union(refsel.Edge(), refsel.Match(), refsel.Index(0, refsel.Match()), refsel.Range(0, 2, refsel.MatchSubset(1, 3)),
+			refsel.Fields(refsel.Field{Name: "a", Sel: refsel.Match()}, refsel.Field{Name: "leaf", Sel: refsel.All(refsel.Match())}))))
+		s.sel2, err = selx.CompileSpec(rich)
+		if err != nil {
+			c20Err = fmt.Errorf("rich selector: %w", err)
+			return
+		}
+		ref2 := refsel.Walk(s.g, rich)
+		s.visits2 = len(ref2.Visits)
+		for _, v := range ref2.Visits {
+			if v.Reason == "m" {
+				s.matches2++
+			}
+		}
 		for _, b := range s.g.Blocks {
 			l, _ := lk.LinkOf(graph.CidOf(b))
 			s.links = append(s.links, l)
@@ -276,15 +295,23 @@ func c20Do(s *c20Shared, op, step, gid int) error {
 		}
 	case 6: // WalkAdv with the shared selector and configuration
 		count := 0
-		err := traversal.Progress{Cfg: s.cfg}.WalkAdv(s.real.Root, s.sel, func(traversal.Progress, datamodel.Node, traversal.VisitReason) error { count++; return nil })
-		if err != nil || count != s.visits {
-			return fmt.Errorf("WalkAdv made %d visits, want %d (err %v)", count, s.visits, err)
+		sel, want := s.sel, s.visits
+		if step%2 == 1 {
+			sel, want = s.sel2, s.visits2
+		}
+		err := traversal.Progress{Cfg: s.cfg}.WalkAdv(s.real.Root, sel, func(traversal.Progress, datamodel.Node, traversal.VisitReason) error { count++; return nil })
+		if err != nil || count != want {
+			return fmt.Errorf("WalkAdv made %d visits, want %d (err %v)", count, want, err)
 		}
 	case 7: // WalkMatching and Get
 		count := 0
-		err := traversal.Progress{Cfg: s.cfg}.WalkMatching(s.real.Root, s.sel, func(traversal.Progress, datamodel.Node) error { count++; return nil })
-		if err != nil || count != s.matches {
-			return fmt.Errorf("WalkMatching matched %d, want %d (err %v)", count, s.matches, err)
+		sel, want := s.sel, s.matches
+		if step%2 == 1 {
+			sel, want = s.sel2, s.matches2
+		}
+		err := traversal.Progress{Cfg: s.cfg}.WalkMatching(s.real.Root, sel, func(traversal.Progress, datamodel.Node) error { count++; return nil })
+		if err != nil || count != want {
+			return fmt.Errorf("WalkMatching matched %d, want %d (err %v)", count, want, err)
 		}
 		n, err := traversal.Progress{Cfg: s.cfg}.Get(s.real.Root, datamodel.ParsePath("x/a/leaf/1"))
 		if err != nil {
